@@ -252,7 +252,7 @@ func c12Run(c *fw.Ctx, cs c12Case) {
 					key = "points-duplicated"
 				}
 			}
-			c.Violate("C12", key, fmt.Sprintf("%s: table %s after healing: summed over partitions (points, a) per row\n got  %v\n want %v\n%s", describe(), tn, got, want, strings.Join(detail, "\n")), cs)
+			c.Violate("C12", key, fmt.Sprintf("%s: table %s after healing: summed over partitions (points, a) per row\n got  %v\n want %v\n%s\n%s", describe(), tn, got, want, strings.Join(detail, "\n"), cl.DebugState()), cs)
 			return
 		}
 		for l := 0; l < cs.Leaders; l++ {
@@ -319,6 +319,7 @@ func init() {
 		ID:        "C12",
 		Level:     "model_checking",
 		NoThreads: true,
+		Pre:       c12RunTLC,
 		Rule: "in-process cluster (1-2 leaders, 2 partitions, 1-2 followers per partition), two tables on one stream with different partition keys (ta by x; tb by y with a WHERE) so that per-table offsets on a follower diverge; base schedule of 3 (quick) / 4 (thorough) inserts delivered eagerly plus every placement of <=2 (quick) / <=3 on the focus follower (thorough) fault events {flush ta only, flush all, clean stop/start, crash (restart from the directory image of that instant), cut, reconnect, gate (delay), ungate, restart leader, snapshot, restore (restart from the older image)} at every position, enabledness respected; every event runs to exact quiescence; at the end all nodes are healed and caught up; oracle: per table the rows summed over partitions equal a standalone DB fed the same points (no point lost, none applied twice), redundant followers identical, leader queries equal standalone; non-trivial = schedule with a fault after the first insert",
 		Assumptions: []string{"reconnect policy of server.followSource re-implemented in the cluster driver (same Follow request, EarliestOffset advanced to the last inserted entry)", "a crash image is taken at quiescence (no kill instants inside a flush; those are C02's subject)"},
 		Shards:      func(tier string) int { return 16 },
@@ -410,6 +411,8 @@ func init() {
 					}
 				}
 			}
+			// layer 2: replay of every path of the TLA+ model
+			c12ReplayModel(c)
 			c.R.Bound = fmt.Sprintf("%d inserts; <=2 faults at every position (1 leader, 1 follower/partition); single faults (quick) / focus-follower pairs (thorough) for the other configurations", inserts)
 		},
 		Replay: func(c *fw.Ctx, raw json.RawMessage) {
